@@ -200,6 +200,7 @@ type shardResult struct {
 	idx      uint64
 	payload  []byte
 	havePay  bool
+	recent   []recentCase // most recent first
 	elapsed  time.Duration
 }
 
@@ -375,11 +376,19 @@ func (c *ctx) runShard(bin string, spec ev.ShardSpec, n int) shardResult {
 		}
 	}
 	if data, err := os.ReadFile(prog); err == nil && len(data) >= 16 {
-		res.idx = binary.LittleEndian.Uint64(data[0:8])
-		n := binary.LittleEndian.Uint32(data[8:12])
-		if n != 0xffffffff && int(n) <= len(data)-16 {
-			res.payload = append([]byte(nil), data[16:16+n]...)
-			res.havePay = true
+		slotSize := (len(data) - 16) / ev.ProgressSlots
+		seq := binary.LittleEndian.Uint64(data[0:8])
+		for k := uint64(0); k < ev.ProgressSlots && k < seq; k++ {
+			slot := data[16+int((seq-1-k)%ev.ProgressSlots)*slotSize:][:slotSize]
+			n := binary.LittleEndian.Uint32(slot[8:12])
+			rc := recentCase{Idx: binary.LittleEndian.Uint64(slot[0:8])}
+			if n != 0xffffffff && int(n) <= slotSize-12 {
+				rc.Payload = append([]byte(nil), slot[12:12+n]...)
+			}
+			res.recent = append(res.recent, rc)
+		}
+		if len(res.recent) > 0 {
+			res.idx, res.payload, res.havePay = res.recent[0].Idx, res.recent[0].Payload, true
 		}
 	}
 	// A shard is normal when it wrote a completed partial and exited 0 (held) or 1 (violations recorded).
@@ -430,14 +439,20 @@ func (c *ctx) getPlan(bin, engine string) (*ev.Plan, error) {
 	return &p, nil
 }
 
+type recentCase struct {
+	Idx     uint64 `json:"idx"`
+	Payload []byte `json:"payload"`
+}
+
 type crashRec struct {
-	Shard    string `json:"shard"`
-	Idx      uint64 `json:"idx"`
-	Payload  string `json:"payload_b64,omitempty"`
-	TimedOut bool   `json:"timed_out"`
-	Exit     int    `json:"exit"`
-	LogTail  string `json:"log_tail"`
-	Resumed  bool   `json:"resumed"` // a range shard that was continued behind the case in flight
+	Recent   []recentCase `json:"recent,omitempty"`
+	Shard    string       `json:"shard"`
+	Idx      uint64       `json:"idx"`
+	Payload  string       `json:"payload_b64,omitempty"`
+	TimedOut bool         `json:"timed_out"`
+	Exit     int          `json:"exit"`
+	LogTail  string       `json:"log_tail"`
+	Resumed  bool         `json:"resumed"` // a range shard that was continued behind the case in flight
 }
 
 func (c *ctx) run() int {
@@ -554,7 +569,7 @@ func (c *ctx) run() int {
 					// the crash itself is the finding: do not start further shards
 					stopping = true
 				}
-				cr := crashRec{Shard: spec.Name, Idx: r.idx, TimedOut: r.timedOut, Exit: r.exit, LogTail: tail(r.log, 4000)}
+				cr := crashRec{Shard: spec.Name, Idx: r.idx, TimedOut: r.timedOut, Exit: r.exit, LogTail: tail(r.log, 4000), Recent: r.recent}
 				if r.havePay {
 					cr.Payload = base64.StdEncoding.EncodeToString(r.payload)
 				}
@@ -698,27 +713,40 @@ func (c *ctx) merge(plan *ev.Plan, results []shardResult, crashes []crashRec, bi
 			unrecovered++
 		}
 		if plan.CrashIsViolation {
-			payload, _ := base64.StdEncoding.DecodeString(cr.Payload)
-			cs := map[string]any{"idx": cr.Idx, "payload_b64": cr.Payload, "payload_text": string(payload), "shard": cr.Shard, "timed_out": cr.TimedOut}
-			data, _ := json.Marshal(cs)
 			what := "crashed"
 			if cr.TimedOut {
 				what = "stalled (killed by the shard deadline)"
 			}
-			v := ev.Violation{Property: c.id, Engine: c.engine, Kind: plan.ReplayKindCrash, Sig: "process-" + strings.Fields(what)[0], Size: len(payload),
-				Msg: fmt.Sprintf("worker process %s while executing the case in flight (exit %d); log tail:\n%s", what, cr.Exit, tail(cr.LogTail, 1500)), Case: data}
 			// confirm solo: the replay must die as well, otherwise the crash is not attributable;
 			// one confirmed witness per run is enough (each confirmation may take the full replay deadline)
 			if confirmed {
 				notes = append(notes, fmt.Sprintf("shard %s also died abnormally (exit %d, timeout %v)", cr.Shard, cr.Exit, cr.TimedOut))
 				continue
 			}
-			if c.confirmCrash(bins, v) {
-				confirmed = true
-				vios = append(vios, v)
-			} else {
+			// the culprit is the case in flight or, when a goroutine of an earlier case died late, one of the few before it
+			cands := cr.Recent
+			if len(cands) == 0 {
+				payload, _ := base64.StdEncoding.DecodeString(cr.Payload)
+				cands = []recentCase{{Idx: cr.Idx, Payload: payload}}
+			}
+			found := false
+			for ci, cand := range cands {
+				cs := map[string]any{"idx": cand.Idx, "payload_b64": base64.StdEncoding.EncodeToString(cand.Payload), "payload_text": string(cand.Payload), "shard": cr.Shard, "timed_out": cr.TimedOut, "cases_before_the_crash": ci}
+				data, _ := json.Marshal(cs)
+				v := ev.Violation{Property: c.id, Engine: c.engine, Kind: plan.ReplayKindCrash, Sig: "process-" + strings.Fields(what)[0], Size: len(cand.Payload),
+					Msg: fmt.Sprintf("worker process %s while executing this case (exit %d); log tail:\n%s", what, cr.Exit, tail(cr.LogTail, 1500)), Case: data}
+				if c.confirmCrash(bins, v) {
+					confirmed, found = true, true
+					vios = append(vios, v)
+					break
+				}
+				if cr.TimedOut {
+					break // a stall is always the case in flight
+				}
+			}
+			if !found {
 				blocked++
-				notes = append(notes, fmt.Sprintf("shard %s died abnormally (exit %d, timeout %v) but the case in flight does not reproduce it alone", cr.Shard, cr.Exit, cr.TimedOut))
+				notes = append(notes, fmt.Sprintf("shard %s died abnormally (exit %d, timeout %v) but none of its last %d cases reproduces it alone", cr.Shard, cr.Exit, cr.TimedOut, len(cands)))
 			}
 		} else {
 			blocked++
